@@ -9,10 +9,10 @@ import (
 	"time"
 
 	ipfslog "berty.tech/go-ipfs-log"
+	"berty.tech/go-ipfs-log/identityprovider"
 	"berty.tech/go-ipfs-log/keystore"
 	orbitdb "berty.tech/go-orbit-db"
 	"berty.tech/go-orbit-db/accesscontroller"
-	"berty.tech/go-ipfs-log/identityprovider"
 	"berty.tech/go-orbit-db/address"
 	"berty.tech/go-orbit-db/iface"
 	"berty.tech/go-orbit-db/pubsub/directchannel"
@@ -252,7 +252,6 @@ func OpCtx(d time.Duration) (context.Context, context.CancelFunc) {
 	return context.WithTimeout(context.Background(), d)
 }
 
-
 // VisibleState is the canonical text of what the store's query API shows (by store type).
 func VisibleState(s iface.Store) string {
 	switch st := s.(type) {
@@ -293,7 +292,6 @@ func LogHashSeq(s iface.Store) []string {
 	}
 	return out
 }
-
 
 // WithDirectChannelStreams makes the instance use the libp2p-stream direct channel
 // (pubsub/directchannel) over the stub host instead of the default pubsub-based one.
